@@ -97,7 +97,15 @@ def describe_exception(e):
         msg = str(e)
     except Exception as e2:      # pragma: no cover
         msg = ""
+    stack = []
+    tb = e.__traceback__
+    while tb is not None:
+        fn2 = os.path.abspath(tb.tb_frame.f_code.co_filename)
+        if fn2.startswith(root + os.sep):
+            stack.append(tb.tb_frame.f_code.co_name)
+        tb = tb.tb_next
     return {
+        "stack": stack[-12:],
         "out": "raise", "cls": type(e).__name__, "module": type(e).__module__,
         "mro": [c.__name__ for c in type(e).__mro__], "msg": msg[:400], "msg_empty": not msg.strip(),
         "deliberate": deliberate, "where": where, "func": func,
@@ -290,6 +298,223 @@ def do_cli(path):
     return _guarded(f)
 
 
+# ------------------------------------------------------------------------------------------- injection
+INJECT_FILE = """injection base problem
+1 0 -1 2 imp:n=1 imp:p=1
+2 0 1 -2 3 imp:n=1 imp:p=1
+3 0 -3 imp:n=1 imp:p=0
+
+1 px 0
+2 px 1
+3 so 5
+
+mode n p
+m1 1001.80c 1.5
+tr5 1 2 3
+"""
+# two IMP cards in the data block (merge site), two VOL cards (the `only allowed once` raise)
+INJECT_FILE_MERGE = """injection base problem with data-block importances
+1 0 -1 2
+2 0 1 -2 3
+3 0 -3
+
+1 px 0
+2 px 1
+3 so 5
+
+mode n p
+imp:n 1 1 1
+imp:p 1 1 0
+"""
+INJECT_FILE_TWICE = """injection base problem with two volume cards
+1 0 -1 2 imp:n=1
+2 0 1 -2 3 imp:n=1
+3 0 -3 imp:n=0
+
+1 px 0
+2 px 1
+3 so 5
+
+mode n
+vol 1 1 1
+vol 2 2 2
+"""
+
+
+def make_exception(name):
+    """an instance of the named class (montepy.errors, sly, builtins)"""
+    import builtins as B
+    import montepy.errors as E
+    import sly.lex
+    if name == "LexError":
+        return sly.lex.LexError("injected", "text", 0)
+    c = getattr(E, name, None)
+    if c is None or not (isinstance(c, type) and issubclass(c, BaseException)):
+        c = getattr(B, name)
+    if name in ("MalformedInputError",):
+        return c(None, "injected")
+    if name == "ParsingError":
+        return c(None, "injected", [])
+    if name == "BrokenObjectLinkError":
+        return c("Cell", 1, "Surface", 2)
+    if name == "RedundantParameterSpecification":
+        return c("key", "value")
+    if name == "UnicodeDecodeError":
+        return c("ascii", b"x", 0, 1, "injected")
+    return c("injected")
+
+
+def _patch_targets(site):
+    """-> list of (owner object, attribute name, kind) to replace for a site; kind 'raise' replaces the callable by one
+    that raises at its first call, 'none' by one returning None, 'gen' by a generator function raising at first next"""
+    import montepy
+    import montepy.cells
+    import montepy.input_parser.input_syntax_reader as ISR
+    from montepy.input_parser.parser_base import MCNP_Parser
+    from montepy.mcnp_problem import MCNP_Problem
+    from montepy.numbered_object_collection import NumberedObjectCollection
+    from montepy.data_inputs.data_input import DataInputAbstract
+    from montepy.data_inputs import importance, universe_input, material, thermal_scattering
+    from montepy.surfaces.surface import Surface
+    T = {
+        "parse": [(MCNP_Parser, "parse", "raise", None)],
+        "restart": [(MCNP_Parser, "restart", "raise", None)],
+        "tree_none": [(MCNP_Parser, "parse", "none", None)],
+        "construct": [(montepy.Cell, "_parse_keyword_modifiers", "raise", None)],
+        "link": [(montepy.Cell, "link_to_problem", "raise", None)],
+        "append": [(NumberedObjectCollection, "append", "raise", "Cells")],
+        "append_material": [(NumberedObjectCollection, "append", "raise", "Materials")],
+        "append_transform": [(NumberedObjectCollection, "append", "raise", "Transforms")],
+        "read_card": [(ISR, "ReadInput", "raise", None)],
+        "syntax": [(ISR, "read_data", "gen", None)],
+        "load_data": [(MCNP_Problem, "_MCNP_Problem__load_data_inputs_to_object", "raise", None)],
+        "cells_merge": [(importance.Importance, "merge", "raise", None)],
+        "cell_pointers": [(montepy.Cell, "update_pointers", "raise", None)],
+        "cells_modifiers": [(universe_input.UniverseInput, "push_to_cells", "raise", None)],
+        "surface_pointers": [(Surface, "update_pointers", "raise", None)],
+        "data_pointers": [(DataInputAbstract, "update_pointers", "raise", None),
+                          (material.Material, "update_pointers", "raise", None),
+                          (thermal_scattering.ThermalScatteringLaw, "update_pointers", "raise", None)],
+    }
+    return T[site]
+
+
+def do_inject(req):
+    """raise the named class at the anchor of a routing site of the real code, once; observe read / check mode"""
+    import montepy
+    site = req["site"]
+    name = req["cls"]
+    check = req["check"]
+    path = req["path"]
+    fired = [0]
+    saved = []
+
+    def raiser(orig, only):
+        def f(*a, **k):
+            if only is not None and (not a or type(a[0]).__name__ != only):
+                return orig(*a, **k)
+            if fired[0] == 0:
+                fired[0] = 1
+                raise make_exception(name)
+            return orig(*a, **k)
+        return f
+
+    def noner(orig):
+        def f(self, *a, **k):
+            if fired[0] == 0:
+                fired[0] = 1
+                # what MCNP_Parser.parse does after a syntax error: an entry in the log and None
+                self.log.parse_error("injected syntax error")
+                for _ in a[0]:
+                    pass
+                return None
+            return orig(self, *a, **k)
+        return f
+
+    def genner(orig):
+        def g(*a, **k):
+            if fired[0] == 0:
+                fired[0] = 1
+                raise make_exception(name)
+            yield from orig(*a, **k)
+        return g
+
+    def f():
+        if check:
+            pr = montepy.MCNP_Problem(path)
+            pr.parse_input(check_input=True)
+        else:
+            montepy.read_input(path)
+        return {}
+
+    try:
+        if site != "cells_once":
+            for owner, attr, kind, only in _patch_targets(site):
+                orig = owner.__dict__[attr] if isinstance(owner, type) else getattr(owner, attr)
+                saved.append((owner, attr, orig))
+                call = orig.__func__ if isinstance(orig, (staticmethod, classmethod)) else orig
+                new = raiser(call, only) if kind == "raise" else noner(call) if kind == "none" else genner(call)
+                setattr(owner, attr, new)
+        r = _guarded(f)
+    finally:
+        for owner, attr, orig in reversed(saved):
+            setattr(owner, attr, orig)
+    r["fired"] = fired[0]
+    return r
+
+
+# ------------------------------------------------------------------------------------------- isolation
+def do_isolate(path):
+    """Construct the object of every input of the file on its own (Cell / surface_builder / parse_data, no problem, no
+    links): which cards fail by themselves, and how.  Then read the file without the first such card (rule (iii) of the
+    known-findings attribution).  Files with read cards are not isolated (the queue may not terminate)."""
+    import montepy
+    from montepy.input_parser import input_syntax_reader, block_type, mcnp_input
+    from montepy.input_parser.input_file import MCNP_InputFile
+    from montepy.surfaces import surface_builder
+    from montepy.data_inputs.data_parser import parse_data
+    with open(path, newline="", encoding="utf-8", errors="surrogateescape") as fh:
+        text = fh.read()
+    if re.search(r"(?im)^\s{0,4}read\s", text):
+        return {"out": "skipped", "why": "read card"}
+    builders = {block_type.BlockType.CELL: montepy.Cell, block_type.BlockType.SURFACE: surface_builder.surface_builder,
+                block_type.BlockType.DATA: parse_data}
+
+    def f():
+        cards = []
+        first = None
+        for inp in input_syntax_reader.read_input_syntax(MCNP_InputFile(path), (6, 2, 0)):
+            if not isinstance(inp, mcnp_input.Input) or not inp.input_lines:
+                continue
+            d = {"block": inp.block_type.value, "line": inp.line_number, "n": len(inp.input_lines), "exc": None}
+            try:
+                builders[inp.block_type](inp)
+            except _Alarm:
+                raise
+            except BaseException as e:
+                x = describe_exception(e)
+                d["exc"] = {k: x[k] for k in ("cls", "mro", "func", "where", "deliberate", "stack")}
+                if first is None:
+                    first = len(cards)
+            cards.append(d)
+        return {"cards": cards, "first": first}
+
+    r = _guarded(f)
+    if r.get("out") == "ok" and r.get("first") is not None:
+        c = r["cards"][r["first"]]
+        lines = text.split("\n")
+        # line_number is 1-based; drop the card's lines
+        new = lines[:c["line"] - 1] + lines[c["line"] - 1 + c["n"]:]
+        p2 = path + ".without"
+        with open(p2, "w", newline="", encoding="utf-8", errors="surrogateescape") as fh:
+            fh.write("\n".join(new))
+        w = do_read(p2, want_summary=False)
+        wc = do_check(p2)
+        r["without"] = {k: w.get(k) for k in ("out", "cls", "func", "stack", "deliberate", "mro", "msg_empty")}
+        r["without_check"] = {k: wc.get(k) for k in ("out", "cls", "func", "stack")}
+    return r
+
+
 def worker_main():
     # all scratch output stays quiet; one JSON answer per JSON request line
     sys.stdout.reconfigure(line_buffering=True)
@@ -311,6 +536,8 @@ def worker_main():
                     res[m] = do_cli(req["path"])
                 elif m == "inject":
                     res[m] = do_inject(req)
+                elif m == "isolate":
+                    res[m] = do_isolate(req["path"])
         except BaseException as e:      # the worker itself must never die silently
             res["worker_error"] = type(e).__name__ + ": " + str(e)[:300]
         out.write(json.dumps({"id": req.get("id"), "res": res}) + "\n")
@@ -321,12 +548,14 @@ def worker_main():
 # =========================================================================================== pool
 class Pool:
     """up to 4 persistent worker processes; a worker that does not answer in time is killed (= hang)"""
+    _count = 0
 
     def __init__(self, n=4, repo=None):
         import vlib
         self.n = n
         self.repo = repo or vlib.REPO
-        self.root = "/tmp/C13-%d" % os.getpid()
+        Pool._count += 1
+        self.root = "/tmp/C13-%d-%d" % (os.getpid(), Pool._count)
         os.makedirs(self.root, exist_ok=True)
         self.procs = [None] * n
         self.restarts = 0
@@ -895,53 +1124,543 @@ def allowed_exception(r):
     return False, "leak"
 
 
+def trailing_cards(text):
+    """first words of the cards that stand after the blank line that ends the data block (MCNP reads none of them)"""
+    import spec
+    sf = spec.split_file(text, 128)
+    out = []
+    for l in sf["trailing"]:
+        if l.strip() and not spec.is_comment_line(l) and l[:5].strip():
+            out.append(l.split()[0].lower())
+    return out
+
+
+def _fail(kind, mode, r=None, **kw):
+    d = {"kind": kind, "mode": mode}
+    if r is not None:
+        d.update(cls=r.get("cls"), func=r.get("func"), where=r.get("where"), stack=r.get("stack"),
+                 deliberate=r.get("deliberate"), msg=(r.get("msg") or "")[:200])
+    d.update(kw)
+    d["sig"] = ":".join(str(x) for x in (kind, d.get("cls") or d.get("what") or "", d.get("func") or "") if x != "")
+    return d
+
+
 def judge(case, res):
     """-> list of failures (dicts with 'kind' and a 'sig' that identifies the defect) for one executed case"""
     fails = []
     r = res.get("read") or {}
     out = r.get("out")
     controlled = False
-    if out in ("hang",):
-        fails.append({"kind": "hang", "sig": "hang", "mode": "read"})
-    elif out in ("worker-died",):
-        fails.append({"kind": "worker-died", "sig": "worker-died", "mode": "read"})
+    if out in ("hang", "worker-died"):
+        fails.append(_fail(out, "read"))
     elif out == "raise":
         ok, why = allowed_exception(r)
         if ok:
             controlled = True
         else:
-            fails.append({"kind": "leak" if why == "leak" else "empty-message", "cls": r["cls"], "where": r["where"],
-                          "func": r.get("func"), "deliberate": r.get("deliberate"), "msg": r.get("msg", "")[:200],
-                          "sig": "%s:%s:%s" % (why, r["cls"], r.get("func")), "mode": "read"})
+            fails.append(_fail("leak" if why == "leak" else "empty-message", "read", r))
     elif out == "ok":
         sp = spec_read(case["text"])
-        if sp["invalid"]:
-            fails.append({"kind": "accepted-malformed", "reasons": sp["invalid"][:3], "mode": "read",
-                          "sig": "accepted:" + re.sub(r"-?\d+(\.\d+)?", "N", sp["invalid"][0])})
+        summ = r.get("summary")
+        extra = []
+        if summ is not None:
+            tc = trailing_cards(case["text"])
+            extra = [w for w in tc if w in summ.get("data", []) and w not in sp["data"]]
+        if extra:
+            fails.append(_fail("reads-past-terminator", "read", what="data", cards=extra[:4]))
+        elif sp["invalid"]:
+            what = re.sub(r"-?\d+(\.\d+)?", "N", sp["invalid"][0])
+            fails.append(_fail("accepted-malformed", "read", what=what, reasons=sp["invalid"][:3]))
         else:
-            if r.get("summary") is None:
-                fails.append({"kind": "unsummarisable", "detail": r.get("summary_error"), "sig": "unsummarisable",
-                              "mode": "read"})
-            diffs = misrepresentations(sp, r.get("summary"))
+            if summ is None:
+                fails.append(_fail("unsummarisable", "read", what=str(r.get("summary_error"))[:80]))
+            diffs = misrepresentations(sp, summ)
             if diffs:
-                fails.append({"kind": "misrepresents", "diffs": [[_fs(x) for x in d] for d in diffs[:3]], "mode": "read",
-                              "sig": "misrepresents:" + diffs[0][0]})
+                fails.append(_fail("misrepresents", "read", what=diffs[0][0],
+                                   diffs=[[_fs(x) for x in d] for d in diffs[:3]]))
     # check mode: the same conditions are warnings and the call returns
     for mode in ("check", "cli"):
         c = res.get(mode)
         if not c:
             continue
-        if c.get("out") == "hang":
-            if not any(f["kind"] == "hang" for f in fails):
-                fails.append({"kind": "hang", "sig": "hang:" + mode, "mode": mode})
+        if c.get("out") in ("hang", "worker-died"):
+            if not any(f["kind"] == c.get("out") for f in fails):
+                fails.append(_fail(c.get("out"), mode))
         elif c.get("out") == "raise" and controlled:
-            fails.append({"kind": "check-raises", "cls": c["cls"], "where": c["where"], "func": c.get("func"),
-                          "read_cls": r.get("cls"), "msg": c.get("msg", "")[:200], "mode": mode,
-                          "sig": "check-raises:%s:%s" % (c["cls"], c.get("func"))})
+            fails.append(_fail("check-raises", mode, c, read_cls=r.get("cls")))
         elif c.get("out") == "ok" and controlled and c.get("nwarn", 0) == 0:
-            fails.append({"kind": "check-silent", "read_cls": r.get("cls"), "mode": mode,
-                          "sig": "check-silent:%s" % r.get("cls")})
+            fails.append(_fail("check-silent", mode, what=str(r.get("cls"))))
     return fails
+
+
+# =========================================================================================== cases
+def base_problem(seed, i):
+    """the i-th well-formed file of a run"""
+    import gen
+    rng = random.Random(f"{seed}:C13:base:{i}")
+    P = gen.gen_problem(rng, dict(max_cells=6))
+    L = gen.layout_opts(rng, wild=(i % 3 == 0))
+    return gen.render(rng, P, L)
+
+
+def cases_of_base(seed, i, text, per_token, rng):
+    """corruptions of one base file: at every token position `per_token` kinds (0 = every applicable kind),
+    plus the whole-file corruptions"""
+    toks, info = scan(text)
+    out = []
+    for tok in toks:
+        ks = applicable(tok, toks)
+        chosen = ks if per_token <= 0 else rng.sample(ks, min(per_token, len(ks)))
+        for k in chosen:
+            c = corrupt(text, toks, tok, k, rng)
+            if c is not None:
+                out.append({"base": i, "text": c[0], "corr": c[1]})
+    name = "case.i"
+    for new, d, files in file_corruptions(text, info, rng, name):
+        out.append({"base": i, "text": new, "corr": d, "files": files})
+    return out, len(toks)
+
+
+def task_of(case, modes):
+    return {"text": case["text"], "name": case.get("name", "case.i"), "modes": list(modes), "files": case.get("files")}
+
+
+# =========================================================================================== injection correspondence
+def canon_model(outs, check):
+    """model outcome strings -> set of canonical observations"""
+    res = set()
+    for o in outs.split(","):
+        p = o.split(":")
+        if p[0] == "raise":
+            res.add("raise:" + p[1])
+        elif p[0] == "warn":
+            res.add("ok[" + p[1] + "]")
+        elif p[0] == "recovered":
+            res.add("ok[]")
+        else:
+            res.add("?" + o)
+    return res
+
+
+def canon_real(r, known):
+    if r.get("out") == "raise":
+        return "raise:" + r["cls"]
+    if r.get("out") == "ok":
+        ws = []
+        for w in r.get("warnings", []):
+            m = re.match(r"^(\w+): ", w)
+            if m and m.group(1) in known:
+                ws.append(m.group(1))
+        return "ok[" + ",".join(ws) + "]"
+    return str(r.get("out"))
+
+
+INJECT_SKIP = {"BaseException", "Exception", "Warning", "UserWarning", "LineOverRunWarning", "LineExpansionWarning",
+               "ArithmeticError", "LookupError", "OSError", "RuntimeError", "UnicodeError", "NameError",
+               "DeprecatedError", "DeprecationWarning"}
+
+
+def injection(ctx, T, pool, hw, site_wires, classes, fraction=1.0):
+    """inject every class at every routing site of the real code; compare with the model's route.
+    fraction < 1: the pairs (site, class) whose class no clause of the site's chain names (nor an ancestor /
+    descendant of it) are sampled"""
+    import vlib
+    reqs = []
+    meta = []
+    H = T["hierarchy"]
+    hmap = {tid: cl for tid, ln, cl in T["handlers"]}
+    rng = random.Random(f"{ctx.seed}:C13:inject")
+    for sname, chain, phase in T["sites"]:
+        cw = site_wires[sname]
+        named = set()
+        for tid, _ in chain:
+            for caught, acts in hmap[tid]:
+                named.update(caught)
+        for c in classes:
+            related = c in named or any(a in named for a in H.get(c, [])) or any(c in H.get(n, []) for n in named)
+            if not related and rng.random() > fraction:
+                continue
+            if sname == "cells_once" and c != "MalformedInputError":
+                continue
+            if sname == "tree_none" and c != "ParsingError":
+                continue
+            if c == "StopIteration" and sname in ("syntax", "read_card"):
+                continue      # PEP 479: a StopIteration raised inside a generator becomes RuntimeError
+            for check in (0, 1):
+                reqs.append(f"route {check} {c} D {hw} {cw}")
+                meta.append((sname, c, check))
+    answers = vlib.model_ask("Exn", reqs)
+    tasks = []
+    for (sname, c, check) in meta:
+        text = INJECT_FILE_MERGE if sname == "cells_merge" else INJECT_FILE_TWICE if sname == "cells_once" else INJECT_FILE
+        tasks.append({"text": text, "name": "inject.i", "modes": ["inject"],
+                      "req": {"site": sname, "cls": c, "check": bool(check)}})
+    results = pool.run(tasks)
+    bad = []
+    dist = {}
+    known = set(classes) | set(T["hierarchy"])
+    for (sname, c, check), ans, res in zip(meta, answers, results):
+        ctx.cov["programs"] += 1
+        ctx.cov["disagreements_checked"] += 1
+        r = (res or {}).get("inject") or {}
+        real = canon_real(r, known)
+        if sname == "cells_once":
+            # the natural trigger (two VOL cards) also reaches the merge of the two cards: same class, second warning
+            real = re.sub(r"\[(\w+)(,\1)+\]", r"[\1]", real)
+        model = canon_model(ans, check)
+        ctx.count_case(("inject", sname, c, check), nontrivial=True)
+        k = "%s/%s" % ("check" if check else "normal", real.split(":")[0].split("[")[0] + ("[w]" if real.startswith("ok[") and real != "ok[]" else ""))
+        dist[k] = dist.get(k, 0) + 1
+        if sname != "cells_once" and not r.get("fired"):
+            bad.append({"site": sname, "cls": c, "check": check, "why": "anchor not reached in the real code", "real": real})
+        elif real not in model:
+            bad.append({"site": sname, "cls": c, "check": check, "real": real, "model": sorted(model),
+                        "where": r.get("where")})
+    return reqs, answers, bad, dist
+
+
+# =========================================================================================== findings support
+def legal_chars():
+    """characters each block's lexer accepts (probed on the real lexers)"""
+    from montepy.input_parser.tokens import CellLexer, SurfaceLexer, DataLexer
+    import sly.lex
+    out = {}
+    for b, L in ((0, CellLexer), (1, SurfaceLexer), (2, DataLexer)):
+        ok = set()
+        for code in range(32, 127):
+            ch = chr(code)
+            try:
+                list(L().tokenize("1 " + ch + " 1\n"))
+                ok.add(ch)
+            except sly.lex.LexError:
+                pass
+            except Exception:
+                ok.add(ch)
+        out[b] = ok
+    return out
+
+
+def read_targets(text):
+    return [m.group(1) for m in re.finditer(r"(?im)^\s{0,4}read\s+.*?file\s*=?\s*(\S+)", text)]
+
+
+def prepare_failure(case, f, res, iso):
+    """the record handed to ctx.fail: the case, the failure, and what the attribution predicates need"""
+    return {"kind": f["kind"], "sig": f["sig"], "failure": f, "text": case["text"], "corr": case.get("corr"),
+            "name": case.get("name", "case.i"), "files": case.get("files"), "iso": iso}
+
+
+def shrink_case(pool, case, sig_of):
+    """drop cards (whole logical cards) while the same failure signature persists; -> smaller case"""
+    cur = dict(case)
+    for _ in range(3):
+        toks, info = scan(cur["text"])
+        lines = cur["text"].split("\n")
+        cards = sorted(info["cards"], key=lambda c: -c[1])
+        cands = []
+        for b, a, z in cards:
+            new = lines[:a] + lines[z + 1:]
+            cands.append("\n".join(new))
+        if not cands:
+            break
+        results = pool.run([task_of(dict(cur, text=t), ["read", "check"]) for t in cands])
+        # greedy: apply every removal that keeps the signature, re-validating cumulatively from the bottom
+        kept = None
+        text = cur["text"]
+        changed = False
+        for (b, a, z), t, r in zip(cards, cands, results):
+            if r is None:
+                continue
+            if sig_of(dict(cur, text=t), r):
+                # removal is fine on its own; try it on top of what was already removed
+                l2 = text.split("\n")
+                t2 = "\n".join(l2[:a] + l2[z + 1:])
+                if t2 == t or sig_of(dict(cur, text=t2), pool.run([task_of(dict(cur, text=t2), ["read", "check"])])[0]):
+                    text = t2
+                    changed = True
+        cur["text"] = text
+        if not changed:
+            break
+    cur.pop("corr", None)
+    return cur
+
+
+def evaluate(pool, cases, modes=("read", "check")):
+    """run cases, judge them, isolate the failing ones; -> list of (case, res, fails, iso)"""
+    results = pool.run([task_of(c, modes) for c in cases])
+    out = []
+    todo = []
+    for c, r in zip(cases, results):
+        if r is None:
+            continue
+        fails = judge(c, r)
+        out.append([c, r, fails, None])
+        if fails:
+            todo.append(len(out) - 1)
+    if todo:
+        isos = pool.run([task_of(out[k][0], ["isolate"]) for k in todo])
+        for k, x in zip(todo, isos):
+            out[k][3] = (x or {}).get("isolate")
+    return out
+
+
+def replay(ctx, path):
+    with open(path) as fh:
+        case = json.load(fh)
+    case = case.get("case", case)
+    if case.get("kind") == "broken-obligation":
+        print("REPLAY property=C13: a broken obligation has no input to replay; run ./check C13")
+        return 1
+    pool = Pool(1)
+    try:
+        ev = evaluate(pool, [case], modes=("read", "check", "cli"))
+    finally:
+        pool.close()
+    fails = ev[0][2] if ev else []
+    if fails:
+        print("REPLAY property=C13 still fails: " + "; ".join(f["sig"] for f in fails))
+        print(f"VIOLATION property=C13 replay={path}")
+        return 1
+    print("REPLAY property=C13 passes")
+    return 0
+
+
+def run(ctx):
+    import vlib
+    import translate_errors as TE
+    quick = ctx.tier == "quick"
+    t_start = time.time()
+    # ---- 1. regenerate Gen/Errors.v, prove
+    T = None
+    try:
+        T = TE.regenerate()
+    except Exception as e:
+        ctx.broken_obligations.append({"obligation": "translator harness/translate_errors.py (fail closed)",
+                                       "detail": f"{type(e).__name__}: {e}"[:600]})
+    if T is not None:
+        ctx.prove()
+    else:
+        ctx.cov["obligations"] += len(vlib.property_theorems("Properties/C13.v"))
+    pool = Pool(4)
+    dist = {"corruption_kinds": {}, "roles": {}, "read_outcomes": {}, "check_outcomes": {}, "failure_signatures": {},
+            "oracle": {"raised_controlled": 0, "returned_and_compared": 0, "returned_definitely_malformed": 0,
+                       "spec_could_not_read_part": 0}}
+    extra = {"input_distribution": dist}
+    try:
+        # ---- 2./3. model binary, injection correspondence, vm_compute cross-check
+        nx = 0
+        if T is not None and not any("coq build" in str(b.get("obligation")) for b in ctx.broken_obligations):
+            ok, log = vlib.coq_make(["Model/Exn.vo"])
+            if not ok:
+                ctx.broken_obligations.append({"obligation": "Model/Exn.vo builds", "detail": log[-800:]})
+            else:
+                hmap = {tid: cl for tid, ln, cl in T["handlers"]}
+                hw = TE.hier_wire(T["hierarchy"])
+                sw = {n: TE.chain_wire(ch, hmap) for n, ch, ph in T["sites"]}
+                classes = [c for c in sorted(T["hierarchy"]) if c not in INJECT_SKIP]
+                reqs, answers, bad, idist = injection(ctx, T, pool, hw, sw, classes, fraction=0.3 if quick else 1.0)
+                extra["injection"] = {"cases": len(reqs), "observations": idist, "sites": len(T["sites"]),
+                                      "classes": len(classes)}
+                if bad:
+                    ctx.broken_obligations.append({
+                        "obligation": "correspondence: exception injected at a routing site of the real code vs Exn.route",
+                        "detail": {"n": len(bad), "first": bad[:3]}})
+                nx, mism = vlib.vm_crosscheck("Exn", reqs, answers, sample=40 if quick else 200, seed=ctx.seed)
+                if mism:
+                    ctx.broken_obligations.append({"obligation": "extraction cross-check Exn", "detail": mism[:2]})
+                ctx.sample({"injection_request": reqs[0][:120] + "...", "model_answer": answers[0]})
+                extra["tables"] = {"handlers": len(T["handlers"]), "raise_rows": len(T["raise_rows"]),
+                                   "prim_rows": len(T["prim_rows"]), "reachable_functions": T["reach"],
+                                   "digest": T["digest"]}
+        # ---- 4. corpus, committed findings
+        corpus = []
+        cdir = os.path.join(vlib.VERIF, "corpus", "C13")
+        if os.path.isdir(cdir):
+            for fn in sorted(os.listdir(cdir)):
+                if fn.endswith(".json"):
+                    with open(os.path.join(cdir, fn)) as fh:
+                        c = json.load(fh)
+                    c = c.get("case", c)
+                    c["corpus"] = fn
+                    corpus.append(c)
+        extra["corpus"] = len(corpus)
+        for c, r, fails, iso in evaluate(pool, corpus, modes=("read", "check", "cli")):
+            ctx.count_case(("corpus", c["text"]), nontrivial=True)
+            for f in fails:
+                ctx.fail(prepare_failure(c, f, r, iso))
+        # ---- 5. search: single corruptions of generated well-formed files
+        budget = (45 if quick else 900)
+        deadline = time.time() + budget
+        nbase = 400 if quick else 40000
+        per_token = 1 if quick else 0
+        batch = 12 if quick else 8
+        i = 0
+        nviol = 0
+        seen_sig = {}
+        stats = {"bases": 0, "bases_rejected": 0, "cases": 0, "tokens": 0, "hangs": 0}
+        samples_left = 3
+        while i < nbase and time.time() < deadline and nviol < 5:
+            idx = list(range(i, min(nbase, i + batch)))
+            i += batch
+            texts = [base_problem(ctx.seed, k) for k in idx]
+            bres = pool.run([{"text": t, "modes": ["read", "check"]} for t in texts])
+            cases = []
+            for k, t, r in zip(idx, texts, bres):
+                if r is None:
+                    continue
+                if r["read"].get("out") != "ok" or judge({"text": t}, r):
+                    # a well-formed file MontePy does not read as it is (C12's business): not corrupted further
+                    stats["bases_rejected"] += 1
+                    continue
+                stats["bases"] += 1
+                rng = random.Random(f"{ctx.seed}:C13:corr:{k}")
+                cs, nt = cases_of_base(ctx.seed, k, t, per_token, rng)
+                stats["tokens"] += nt
+                cases += cs
+            for c, r, fails, iso in evaluate(pool, cases):
+                stats["cases"] += 1
+                kd = c["corr"]["kind"]
+                dist["corruption_kinds"][kd] = dist["corruption_kinds"].get(kd, 0) + 1
+                role = c["corr"].get("role", "file")
+                dist["roles"][role] = dist["roles"].get(role, 0) + 1
+                ro = r["read"].get("out") + (":" + r["read"]["cls"] if r["read"].get("cls") else "")
+                dist["read_outcomes"][ro] = dist["read_outcomes"].get(ro, 0) + 1
+                co = (r.get("check") or {}).get("out", "-") + (":" + r["check"]["cls"] if (r.get("check") or {}).get("cls") else "")
+                dist["check_outcomes"][co] = dist["check_outcomes"].get(co, 0) + 1
+                if r["read"].get("out") == "raise" and not any(f["mode"] == "read" for f in fails):
+                    dist["oracle"]["raised_controlled"] += 1
+                elif r["read"].get("out") == "ok":
+                    dist["oracle"]["returned_and_compared"] += 1
+                ctx.count_case((kd, role, ro, co, c["corr"].get("repl"), c["corr"].get("tok")),
+                               nontrivial=True)
+                if samples_left and c["corr"].get("line") is not None:
+                    samples_left -= 1
+                    ctx.sample({"corruption": c["corr"], "line": c["text"].split("\n")[c["corr"]["line"]][:100],
+                                "read": ro, "check": co})
+                for f in fails:
+                    dist["failure_signatures"][f["sig"]] = dist["failure_signatures"].get(f["sig"], 0) + 1
+                    if f["kind"] == "hang":
+                        stats["hangs"] += 1
+                    rec = prepare_failure(c, f, r, iso)
+                    fid = ctx.attribute(rec)
+                    if fid:
+                        ctx.filtered[fid] = ctx.filtered.get(fid, 0) + 1
+                        continue
+                    # a new violation: confirm in a fresh process, shrink, report (a few per signature)
+                    if seen_sig.get(f["sig"], 0) >= 1:
+                        seen_sig[f["sig"]] += 1
+                        continue
+                    seen_sig[f["sig"]] = 1
+                    fresh = run_fresh(c["text"], modes=("read", "check"), name=c.get("name", "case.i"), files=c.get("files"))
+                    ff = [x for x in judge(c, fresh) if x["sig"] == f["sig"]]
+                    if not ff:
+                        extra.setdefault("not_confirmed_in_fresh_process", []).append(f["sig"])
+                        continue
+                    small = shrink_case(pool, c, lambda cc, rr, sig=f["sig"]: any(x["sig"] == sig for x in judge(cc, rr)))
+                    ev = evaluate(pool, [small])
+                    if ev and any(x["sig"] == f["sig"] for x in ev[0][2]):
+                        f2 = [x for x in ev[0][2] if x["sig"] == f["sig"]][0]
+                        rec = prepare_failure(small, f2, ev[0][1], ev[0][3])
+                        rec["original_corruption"] = c.get("corr")
+                    if ctx.fail(rec):
+                        nviol += 1
+        stats["distinct_new_signatures"] = {k: v for k, v in seen_sig.items()}
+        extra["search"] = dict(stats, wall_budget_s=budget, pool_restarts=pool.restarts)
+        # ---- 6. the CLI itself on a few files (real `python -m montepy -c`)
+        extra["cli"] = cli_probe(ctx, pool)
+        # ---- 7. committed findings still reproduce?
+        for fd in ctx.findings:
+            if fd.get("status") == "open" and fd.get("replay"):
+                try:
+                    with open(os.path.join(vlib.VERIF, fd["replay"])) as fh:
+                        c = json.load(fh)
+                    c = c.get("case", c)
+                    ev = evaluate(pool, [c], modes=("read", "check"))
+                    ok = False
+                    for f in (ev[0][2] if ev else []):
+                        rec = prepare_failure(c, f, ev[0][1], ev[0][3])
+                        if ctx.attribute(rec) == fd["id"]:
+                            ok = True
+                    fd["_reproduced"] = ok
+                except Exception as e:
+                    fd["_reproduced"] = False
+                    extra.setdefault("finding_replay_errors", []).append(f"{fd['id']}: {type(e).__name__}: {e}"[:200])
+    finally:
+        pool.close()
+    tb = vlib.KERNEL_TB + [
+        "translator harness/translate_errors.py (ast over montepy/**/*.py): trusted to emit the try/except statements, "
+        "class hierarchy, site chains, raise statements and primitive operations the source contains; exercised on every "
+        "run by the injection correspondence (each class raised at each routing site of the real code vs Exn.route)",
+        "modelled, not verified: exception ROUTING of MCNP_Object.__init__, MCNP_Problem.parse_input, "
+        "__update_internal_pointers, Cells.update_pointers/__setup_blank_cell_modifiers, read_data.flush_input as "
+        "coq/Model/Exn.v; NOT modelled: which exception inner code raises on which input (search only), the read-card "
+        "queue (C20: Model/ReadQ.v), exception chaining, warnings filters",
+        "oracle of the search: harness/spec.py (independent MCNP reader) for 'does not misrepresent the file'; "
+        "'raised deliberately' = the innermost traceback frame is a raise statement in montepy's source",
+        f"vm_compute cross-check of {nx} model requests",
+    ]
+    assumptions = [
+        "PARTIAL: the theorems cover routing (every class, every chain, any number of inputs); which exceptions the "
+        "inner Python code raises on a corrupted file is explored by the corruption search only",
+        "the conservative call graph of the translator resolves calls by name; raise / primitive-operation rows are an "
+        "over-approximation of what each site can reach",
+        "definitely malformed = object number not a positive integer, negative material number, dangling surface / "
+        "cell / material / transform reference, duplicate cell / surface number (rules MontePy documents an error type for)",
+    ]
+    extra["wall_breakdown_s"] = {"total": round(time.time() - t_start, 1)}
+    return ctx.finish(tb, assumptions,
+                      "cases = every class of the generated hierarchy injected at every routing site (normal and check "
+                      "mode) + single corruptions (delete/duplicate/replace/junk/truncate/negate/zero/de-integerise/dangle/"
+                      "duplicate-number at token positions; drop block/blank line, read card to a missing file / itself / "
+                      "a cycle, only a title, empty) of generated well-formed problems; distinct = distinct (corruption "
+                      "kind, token role, replacement, read outcome, check outcome); every case is non-trivial (one "
+                      "corruption or one injection)",
+                      extra=extra)
+
+
+def cli_probe(ctx, pool):
+    """`python -m montepy -c <file>` as a real subprocess on a handful of files: exits 0 and prints warnings for
+    malformed files whose read raises a documented error (the in-process `cli` mode covers the rest)"""
+    import vlib
+    import tempfile
+    out = {"runs": 0, "exit_nonzero": 0}
+    files = [
+        ("good.i", INJECT_FILE, 0),
+        ("badsurf.i", INJECT_FILE.replace("1 0 -1 2 imp", "1 0 -1 9 imp"), 0),     # BrokenObjectLinkError -> warning
+        ("badparse.i", INJECT_FILE.replace("2 px 1", "2 px"), 0),                    # ParsingError -> warning
+        ("dupcell.i", INJECT_FILE.replace("2 0 1 -2 3", "1 0 1 -2 3"), 0),           # NumberConflictError -> warning
+    ]
+    d = tempfile.mkdtemp(prefix="C13-cli-")
+    try:
+        for name, text, want in files:
+            p = os.path.join(d, name)
+            with open(p, "w") as fh:
+                fh.write(text)
+            env = dict(os.environ, PYTHONPATH=vlib.REPO, PYTHONHASHSEED="0")
+            try:
+                pr = subprocess.run(["/venv/bin/python", "-m", "montepy", "-c", p], env=env, cwd=d,
+                                    stdout=subprocess.PIPE, stderr=subprocess.PIPE, text=True, timeout=ALARM_S * 3)
+                rc, err = pr.returncode, pr.stderr
+            except subprocess.TimeoutExpired:
+                rc, err = -9, "timeout"
+            out["runs"] += 1
+            ctx.count_case(("cli", name, rc), nontrivial=True)
+            if rc != want:
+                out["exit_nonzero"] += 1
+                last = [l for l in err.strip().split("\n") if l.strip()][-1:] or [""]
+                rec = {"kind": "cli-exit", "sig": "cli-exit:" + last[0].split(":")[0], "text": text, "name": name,
+                       "failure": {"kind": "cli-exit", "mode": "cli-subprocess", "rc": rc, "stderr_tail": err[-600:]},
+                       "iso": None, "corr": None, "files": None}
+                ctx.fail(rec)
+            elif name != "good.i" and "Warning" not in err:
+                rec = {"kind": "cli-silent", "sig": "cli-silent", "text": text, "name": name,
+                       "failure": {"kind": "cli-silent", "mode": "cli-subprocess", "rc": rc, "stderr_tail": err[-600:]},
+                       "iso": None, "corr": None, "files": None}
+                ctx.fail(rec)
+    finally:
+        import shutil
+        shutil.rmtree(d, ignore_errors=True)
+    return out
 
 
 if __name__ == "__main__":
